@@ -65,7 +65,11 @@ def run_scenario(case, schedule):
     programs = case['programs']
     fine = bool(case.get('fine'))
     rec = Recorder()
-    world = vnet.World(servers=[rec])
+    # a second TCP connection (op 'rc': reconnect of the same object) gets a
+    # login server that afterwards stays silent
+    srv2 = servers.Server({'version': 757, 'login': [('success',)],
+                           'play': {'bursts': [], 'end': 'silent'}})
+    world = vnet.World(servers=[rec, srv2])
     sc = S.Scheduler(schedule, step_budget=case.get('budget', 80000),
                      fine=fine)
     world.scheduler = sc
@@ -131,6 +135,16 @@ def run_scenario(case, schedule):
                                                        world.next_seq(),
                                                        type(ex).__name__))
                                 k += 1
+                        elif kind == 'rc':
+                            s0 = world.next_seq()
+                            try:
+                                conn.connect()
+                                res['ops'].append((ti, 'rc', 0, s0,
+                                                   world.next_seq(), None))
+                            except Exception as ex:
+                                res['ops'].append((ti, 'rc', 0, s0,
+                                                   world.next_seq(),
+                                                   type(ex).__name__))
                         elif kind == 'd':
                             s0 = world.next_seq()
                             try:
@@ -157,6 +171,11 @@ def run_scenario(case, schedule):
     res['frames'] = list(rec.frames)
     res['script_errors'] = list(rec.errors)
     res['leftover'] = len(rec.buf)
+    res['link2'] = None
+    if len(world.links) > 1:
+        res['link2'] = {'errors': list(srv2.errors),
+                        'frames': [(f[0], f[1], f[2][:12])
+                                   for f in srv2.frames]}
     res['events'] = list(link.events)
     res['event_thread'] = dict(link.event_thread)
     res['spans'] = list(rec.frame_spans)
@@ -271,7 +290,26 @@ def check(ctx, case, schedule, r):
     elif disc and disc[0][5] is not None:
         ctx.fail('schedule', 'A4-disconnect-raised', sub, disc[0][5])
         return
-    if len(case['programs']) >= 2 and r['preemptions'] >= 1:
+    # reconnect of the same object: the new connection starts with its own
+    # handshake and login start; nothing queued on the old one leaks into it
+    rcs = [o for o in ops if o[1] == 'rc']
+    if rcs:
+        if rcs[0][5] is not None:
+            ctx.fail('schedule', 'A4-reconnect-raised', sub, rcs[0][5])
+            return
+        l2 = r['link2']
+        if l2 is None:
+            ctx.fail('schedule', 'A4-reconnect-no-connection', sub)
+            return
+        heads = [(f[0], f[1]) for f in l2['frames'][:2]]
+        stale = [f for f in l2['frames'] if f[1] == 0x05]
+        if stale or l2['errors'] or (len(heads) == 2 and heads != [
+                ('handshake', 0), ('login', 0)]):
+            ctx.fail('schedule', 'A4-stale-packets-on-new-connection', sub,
+                     (l2['frames'][:4], l2['errors'][:2]),
+                     'handshake, login start')
+            return
+    if (len(case['programs']) >= 2 or rcs) and r['preemptions'] >= 1:
         ctx.nt(repr(case), tuple(schedule))
     ctx.label('outcome_' + r['outcome'])
 
@@ -316,6 +354,10 @@ SMALL = [
      'mode': 'cipher'},
     {'programs': [[('q', 70), ('d', False)], [('f', 60), ('f', 80)]],
      'mode': 'both'},
+    {'programs': [[('q', 8), ('q', 9), ('q', 10), ('d', True), ('rc',)]],
+     'mode': 'plain'},
+    {'programs': [[('f', 8), ('q', 9), ('d', True), ('rc',)]],
+     'mode': 'c64'},
 ]
 
 
